@@ -2,9 +2,17 @@
 # Build everything from files on disk (offline) and warm the Go build cache.
 set -e
 cd "$(dirname "$0")"
+ROOT=$(pwd)
 export GOFLAGS=-mod=mod GOPROXY=off GOSUMDB=off GOTOOLCHAIN=local
 mkdir -p .work/bin evidence replays
 cp /repo/go.sum seq/go.sum
-(cd seq && go build -o ../.work/bin/seqmc.setup ./cmd/seqmc && rm -f ../.work/bin/seqmc.setup)
-if [ -x conc/setup.sh ]; then conc/setup.sh; fi
+cp /repo/go.sum conc/go.sum
+(cd seq && go build -o "$ROOT/.work/bin/seqmc.setup" ./cmd/seqmc && rm -f "$ROOT/.work/bin/seqmc.setup")
+(cd engine/instrument && go build -o "$ROOT/.work/bin/instrument" .)
+W="$ROOT/.work/setup.$$"
+mkdir -p "$W"
+"$ROOT/.work/bin/instrument" -repo /repo -shim "$ROOT/engine/shim" -out "$W/inst" dhcpv4/nclient4 dhcpv6/nclient6 dhcpv4/server4 dhcpv6/server6
+(cd conc && go build -overlay "$W/inst/overlay.json" -o "$W/schedmc" .)
+(cd engine/shim && go test -count=1 . >/dev/null)
+rm -rf "$W"
 echo setup ok
